@@ -108,6 +108,8 @@ static void scen_builder(int prov, const char *key, const char *alg_attr, jwt_al
   v = val_bool("adm", 1, 1); r = lib([&] { return (int)jwt_builder_claim_set(b.b, &v); }); T->step("claim_set-bool", r == 0, std::to_string(r));
   v = val_json("obj", "{\"a\":[1,2,{\"b\":null}],\"s\":\"x\"}", 0); r = lib([&] { return (int)jwt_builder_claim_set(b.b, &v); }); T->step("claim_set-json", r == 0, std::to_string(r));
   v = val_json(nullptr, "{\"m1\":1,\"m2\":\"two\",\"n\":43}", 1); r = lib([&] { return (int)jwt_builder_claim_set(b.b, &v); }); T->step("claim_merge-json", r == 0, std::to_string(r));
+  v = val_json(nullptr, "{\"m1\":99,\"x1\":1,\"x2\":\"two\",\"x3\":[1,2]}", 0); r = lib([&] { return (int)jwt_builder_claim_set(b.b, &v); }); T->step("claim_merge-json-without-replace", r == 0, std::to_string(r));
+  v = val_json(nullptr, "{\"h1\":1,\"h2\":\"two\"}", 0); r = lib([&] { return (int)jwt_builder_header_set(b.b, &v); }); T->step("header_merge-json-without-replace", r == 0, std::to_string(r));
   v = val_str("kid", "k1", 1); r = lib([&] { return (int)jwt_builder_header_set(b.b, &v); }); T->step("header_set", r == 0, std::to_string(r));
   v = val_get(JWT_VALUE_INT, "n"); r = lib([&] { return (int)jwt_builder_claim_get(b.b, &v); }); T->step("claim_get-int", r == 0, std::to_string(r) + ":" + std::to_string(v.int_val));
   v = val_get(JWT_VALUE_JSON, "obj"); r = lib([&] { return (int)jwt_builder_claim_get(b.b, &v); }); { std::string js = v.json_val ? v.json_val : "NULL"; if (v.json_val) free(v.json_val); T->step("claim_get-json", r == 0, std::to_string(r) + ":" + js); }
